@@ -1253,7 +1253,12 @@ func l1Sem(raw []byte, t *l1Intern) (out interface{}) {
 					if err != nil {
 						cs = append(cs, "err")
 					} else {
-						cs = append(cs, map[string]interface{}{"ok": []interface{}{t.id("flow:" + f.FlowDescription), l1FlowOrEmpty(f.FlowDescription)}})
+						// an absent / empty flow description is text 0 (the model's "no flow description")
+						tid := 0
+						if f.FlowDescription != "" {
+							tid = t.id("flow:" + f.FlowDescription)
+						}
+						cs = append(cs, map[string]interface{}{"ok": []interface{}{tid, l1FlowOrEmpty(f.FlowDescription)}})
 					}
 				}
 				e["ctx"] = map[string]interface{}{"ok": cs}
